@@ -453,7 +453,8 @@ class Introspector15:
                 direct = sorted(cm.split_qname(x.name) for x in o.maps.substitution_groups.get(o.name, ()))
                 sg = getattr(o, 'substitution_group', None)
                 self.einfo.append({'id': i, 'name': cm.split_qname(o.name), 'ty': self.tid(o.type),
-                                   'sg': cm.split_qname(sg) if sg else None, 'direct': direct, 'subs': subs})
+                                   'sg': cm.split_qname(sg) if sg else None, 'direct': direct, 'subs': subs,
+                                   'headOk': o.parent is None or getattr(o, 'ref', None) is not None})
                 decls = [cm.split_qname(o.name) + [self.tid(o.type)]]
                 for n in sorted(o.substitutes or ()):
                     ge = o.maps.elements.get(n)
